@@ -378,7 +378,7 @@ int main(int argc, char ** argv)
 	long mixed = 0;
 	while(std::getline(std::cin, line)) {
 		if(! parseScript(line, script)) continue;
-		armWatchdog(20);
+		armWatchdog(60);
 		std::memset(g_storage, W_FILL, sizeof(g_storage));
 		obj = new (g_storage) Obj();
 		g_uid = 0; g_listenerEnq = 0;
